@@ -223,29 +223,15 @@ func runC15(t *testing.T, sc *world.Scenario) *check.Result {
 // c15Count: PWM writes issued by the sweep, by the RPM-curve measurement, and the time of the first control cycle.
 func c15Count(co *childOut) (sweep, measure int, firstTick time.Duration) {
 	for _, ev := range co.Events {
-		if ev.Kind == "yield" && ev.Site == "ctl.tick" && firstTick == 0 {
+		if ev.Kind == "yield" && ev.Site == "ctl.tick" {
 			firstTick = ev.T
-		}
-		if firstTick != 0 {
-			continue
-		}
-		isPwmWrite := false
-		switch {
-		case ev.Kind == "write" && !strings.HasSuffix(ev.Site, "_enable"):
-			isPwmWrite = true
-		case ev.Kind == "yield" && ev.Site == "exec.start" && strings.Contains(ev.ID, "_setpwm"):
-			isPwmWrite = true
-		}
-		if !isPwmWrite {
-			continue
-		}
-		if ev.Flags&kernel.FPwmMapSweep != 0 {
-			sweep++
-		} else if ev.Flags&kernel.FInitSeq != 0 {
-			measure++
+			break
 		}
 	}
-	return
+	// by the shape of the writes, not by the names of the functions that issue them: the sweep is a run of
+	// writes milliseconds apart, the measurement writes are at least the fan response delay (1 s) apart
+	ph := startupPhases(co.Events, anyPwmWrite, firstTick)
+	return ph.Sweep, ph.Measure, firstTick
 }
 
 // c15RegWrites: PWM values written by the control loop (from UpdateFanSpeed).
